@@ -251,7 +251,8 @@ def execUpdateStale (s : State) (c : CmdIn) : Result :=
       | none => { state := setWs sn.1.state c.ws sn.2, events := sn.1.events, status := .err }
       | some ld =>
         match lookup (viewAt ld.state ld.cur) c.ws with
-        | none => { state := setWs ld.state c.ws sn.2, events := sn.1.events ++ ld.events, status := .err }
+        -- "Nothing checked out in this workspace": a plain command error after the snapshot
+        | none => { state := setWs ld.state c.ws sn.2, events := sn.1.events ++ ld.events, status := .ok }
         | some desired =>
           match checkStale ld.state sn.2 ld.cur desired with
           -- "not stale": nothing is checked out; the final `snapshot_impl` records the head operation
